@@ -815,7 +815,7 @@ Section NodeInv.
 
   Lemma commit_walk_inv lcr : forall fuel parent acc s,
     Inv s -> vetted s parent ->
-    match commit_walk fuel lcr parent acc s with
+    match commit_walk src_dq fuel lcr parent acc s with
     | (s', _, res) =>
         Inv s' /\ sle s s' /\ s_hist s' = s_hist s /\ s_high_qc s' = s_high_qc s /\
         s_round s' = s_round s /\ s_last_voted s' = s_last_voted s /\
@@ -827,7 +827,7 @@ Section NodeInv.
   Proof.
     induction fuel as [|f IH]; intros parent acc s H Hv; simpl.
     - unfold panic. split; [exact H|]. split; [apply sle_refl|]. repeat split; auto.
-    - gunf. destruct (lcr + 1 <? b_round parent).
+    - gunfdq. destruct (lcr + 1 <? b_round parent).
       2:{ unfold ret. split; [exact H|]. split; [apply sle_refl|]. repeat split; auto. }
       unfold bind at 1.
       pose proof (get_parent_block_inv parent s H Hv) as G.
@@ -845,7 +845,7 @@ Section NodeInv.
           assert (Hva : vetted s anc).
           { apply (i_flight s H). right. right. right. apply in_map_iff. exists (qc_hash (b_qc parent), anc). auto. }
           specialize (IH anc (anc :: acc) s H Hva).
-          destruct (commit_walk f lcr anc (anc :: acc) s) as [[s2 o2] r2].
+          destruct (commit_walk _ f lcr anc (anc :: acc) s) as [[s2 o2] r2].
           destruct IH as [I2 [L2 [F1 [F2 [F3 [F4 F5]]]]]].
           split; [exact I2|]. split; [exact L2|]. repeat split; auto.
           destruct r2; auto. intros x Hx. destruct (F5 x Hx) as [[<-|Hx']|Hx']; auto.
@@ -860,18 +860,18 @@ Section NodeInv.
   Lemma commit_inv b0 s :
     Inv s -> vetted s b0 ->
     (s_last_committed s < b_round b0 -> dcommit stk mem honest (cw s) (block_digest b0)) ->
-    match commit true b0 s with
+    match commit src_dq b0 s with
     | (s', _, res) => Inv s' /\ sle s s' /\ s_hist s' = s_hist s /\ s_high_qc s' = s_high_qc s /\
                       s_round s' = s_round s /\ s_last_voted s' = s_last_voted s
     end.
   Proof.
-    intros H Hv Hd. unfold commit. unfold bind at 1. unfold get at 1. gunf.
+    intros H Hv Hd. unfold commit. unfold bind at 1. unfold get at 1. gunfdq.
     destruct (b_round b0 <=? s_last_committed s) eqn:El.
     { unfold ret. split; [exact H|]. split; [apply sle_refl|]. repeat split; reflexivity. }
     apply N.leb_gt in El. specialize (Hd El).
     unfold bind at 1.
     pose proof (commit_walk_inv (s_last_committed s) (S (S (ddepth (block_digest b0)))) b0 [] s H Hv) as W.
-    destruct (commit_walk _ _ b0 [] s) as [[s1 o1] r1].
+    destruct (commit_walk _ _ _ b0 [] s) as [[s1 o1] r1].
     destruct W as [I1 [L1 [E1 [E2 [E3 [E4 W]]]]]].
     destruct r1 as [anc|e|k].
     2:{ split; [exact I1|]. split; [exact L1|]. repeat split; auto. }
@@ -946,7 +946,7 @@ Section NodeInv.
 
   Lemma process_block_inv hint b s :
     Inv s -> vetted s b ->
-    match process_block c me true hint b s with
+    match process_block c me src_dq hint b s with
     | (s', _, res) => Inv s' /\ sle s s'
     end.
   Proof.
@@ -1004,7 +1004,7 @@ Section NodeInv.
         - eapply parent_of_sle_store; eauto.
         - lia. }
       pose proof (commit_inv b0 s5 I5 Hv05 Hd) as K.
-      destruct (commit true b0 s5) as [[s6 o6] r6]. destruct K as [I6 [L6 [K1 [K2 [K3 K4]]]]].
+      destruct (commit src_dq b0 s5) as [[s6 o6] r6]. destruct K as [I6 [L6 [K1 [K2 [K3 K4]]]]].
       split; [exact I6|]. split; [exact (sle_trans _ _ _ L5 L6)|]. split; congruence. }
     unfold bind at 1.
     destruct (cm s4) as [[s7 o7] r7].
@@ -1081,7 +1081,7 @@ Section NodeInv.
 
   Lemma handle_proposal_inv hint b s :
     Inv s -> block_sound s b ->
-    match handle_proposal c me true hint b s with
+    match handle_proposal c me src_dq hint b s with
     | (s', _, res) => Inv s' /\ sle s s'
     end.
   Proof.
@@ -1122,7 +1122,7 @@ Section NodeInv.
     destruct ok.
     - assert (Hv3 : vetted s3 b) by (eapply vetted_sle; eauto).
       pose proof (process_block_inv hint b s3 I3 Hv3) as B.
-      destruct (process_block c me true hint b s3) as [[s4 o4] r4]. destruct B as [I4 L4].
+      destruct (process_block c me src_dq hint b s3) as [[s4 o4] r4]. destruct B as [I4 L4].
       split; [exact I4|exact (sle_trans _ _ _ L03 L4)].
     - unfold ret. split; [exact I3|exact L03].
   Qed.
@@ -1148,7 +1148,7 @@ Section NodeInv.
 
   Theorem step_inv hint e s :
     Inv s -> ev_adm s e ->
-    match step c me true hint e s with
+    match step c me src_dq hint e s with
     | (s', _, res) => Inv s' /\ sle s s'
     end.
   Proof.
@@ -1173,7 +1173,7 @@ Section NodeInv.
         - apply (i_store s H). }
       assert (L1 : sle s s1) by (split; [exists []; reflexivity|simpl; lia]).
       pose proof (process_block_inv hint x s1 I1 (vetted_sle _ _ _ Hvx L1)) as B.
-      destruct (process_block c me true hint x s1) as [[s2 o2] r2]. destruct B as [I2 L2].
+      destruct (process_block c me src_dq hint x s1) as [[s2 o2] r2]. destruct B as [I2 L2].
       split; [exact I2|exact (sle_trans _ _ _ L1 L2)].
     - pose proof (local_timeout_inv hint s H) as X.
       destruct (local_timeout c me hint s) as [[s1 o1] r1]. destruct X as [A [B _]]. auto.
